@@ -1,0 +1,8 @@
+//go:build verif
+
+package doapprove
+
+// Contracts for the deductive checker in /verif (comment-only file).
+
+//vc:func Main
+//vc:  assert[C11] at "device.ApproveOrCompare(" @verbSelectsPath arg0 == (action == "compare") && (action == "compare" || action == "approve")
